@@ -648,7 +648,22 @@ steps:
 		st.violate(tk, "applied-from-incomplete-pipeline", "composed resources were applied although the pipeline did not run to the end (%d of %d steps settled)", len(finals), len(steps))
 		return
 	}
-	if complete && cleanTail && statusWrite != nil {
+	synced := false
+	if statusWrite != nil {
+		cl, _, _ := unstructured.NestedSlice(statusWrite.After, "status", "conditions")
+		for _, c := range cl {
+			if m, _ := c.(map[string]any); m != nil && m["type"] == "Synced" && m["status"] == "True" {
+				synced = true
+			}
+		}
+	}
+	if complete && cleanTail && statusWrite != nil && !synced {
+		// the reconcile itself reports that it could not compose what the
+		// pipeline asked for (a desired resource without a body, an apply the
+		// API server rejects): nothing to compare
+		st.s.Probe("pipeline-output-not-composable")
+	}
+	if complete && cleanTail && statusWrite != nil && synced {
 		// the final desired state is the last step's output
 		st.s.Probe("final-desired-judged")
 		final := finals[len(finals)-1].GetDesired()
@@ -699,7 +714,9 @@ steps:
 		}
 	}
 	// ---- results and conditions: pipeline order, none dropped
-	if (complete || fatal != "") && cleanTail && statusWrite != nil {
+	// (a reconcile that fails after the pipeline for another reason - a desired
+	// resource that cannot be composed - reports that failure instead)
+	if ((complete && synced) || fatal != "") && cleanTail && statusWrite != nil {
 		st.judgeSurfaced(tk, key.Name, finals, finalSteps, fatal, statusWrite)
 	}
 }
